@@ -34,6 +34,20 @@ CLAIMS = {
              'validated by correspondence. Bytes through the full path: known finding C03-bytes-fullpath',
         technique='Lean 4 proof (induction on the string, table obligation regenerated from source) + correspondence',
         ref='DESIGN.md §5 C03'),
+    'C04': dict(
+        text='Lean 4 theorems about the dtml-var pipeline model with the TaintedString mark as a Bool, for ALL '
+             'tainted strings, ALL subsets/orders of modifiers, every modelled fmt= (special, method, %-format), '
+             'size/etc, null: tainted_never_raw_no_unquote (regime A), tainted_never_raw_no_quoter (regime B), '
+             'tainted_never_raw_partial (both), no_double_escape, finding_C04_requote (model witness of the '
+             'excluded combination); external functions (case mapping, URL codec) enter as hypotheses (Laws). '
+             'Correspondence: all 4096 modifier subsets + random specs x tainted values with < at every position, '
+             'dtml/SSI/EPFS/entity syntax; oracle: no raw < from the value, no double escape',
+        note='Trusted: Lean kernel; VarPipe model validated by correspondence (0 mismatches); AccessControl '
+             'TaintedString semantics modelled; laws of str.upper/lower/capitalize and urllib are hypotheses. '
+             'Partial: quote-then-unquote (finding C04-requote), newline_to_br/multi-line <br /> (oracle only), '
+             'unwrapped method formats (finding C04-method-format)',
+        technique='Lean 4 proof (stage invariants Safe / Marked over any modifier list) + correspondence',
+        ref='DESIGN.md §5 C04'),
 }
 
 NA_REASON = 'check not built yet in this round (planned, see DESIGN.md §5)'
